@@ -80,6 +80,20 @@ def main():
     dst.mkdir(parents=True, exist_ok=True)
     shutil.copy(src / "patch.diff", dst / "patch.diff")
     shutil.copy(demo, dst / demo.name)
+    old = {}
+    if (dst / "meta.json").exists():
+        try:
+            old = json.loads((dst / "meta.json").read_text())
+        except Exception:
+            old = {}
+    if skip_suite and "suite" not in res and old.get("evaluation", {}).get("suite"):
+        # an earlier evaluation of this same patch ran the suite: keep its result and the misses seen since
+        res["suite"] = old["evaluation"]["suite"]
+        res["suite_from_earlier_evaluation"] = True
+    hist = old.get("check_history", [])
+    if old.get("evaluation", {}).get("check_rc") is not None:
+        hist.append(dict(check_rc=old["evaluation"].get("check_rc"), check_keys=old["evaluation"].get("check_keys")))
+    meta["check_history"] = hist
     meta["evaluation"] = res
     meta["ran_by_lead"] = ran
     caught = res.get("check_rc") == 1
